@@ -124,7 +124,7 @@ def lin(cx, e, depth=0):
             # payload of an Option / Result: the value it carries when present
             return lin(cx, base[1], depth + 1)
         rc, rb = _resolve(cx, base)
-        if rb[0] == "agg" and e[2] < len(rb[3]):
+        if rb[0] == "agg" and e[2] < len(rb[3]) and not _field_mutated(cx, base, e[2]):
             # a field of a struct / range built by the caller (`move_bytes(a..b, dst)`: src.start)
             return lin(rc, rb[3][e[2]], depth + 1)
         return Lin.sym(cx.desc(e))
@@ -166,6 +166,19 @@ def lin(cx, e, depth=0):
     return Lin.sym(cx.desc(e))
 
 
+def _field_mutated(cx, base, idx):
+    """`g.dst_idx += w`: a field of a local that is updated in place is not the value the local was
+    built with"""
+    b = strip_refs(base)
+    while b[0] in ("ref", "rawptr", "deref"):
+        b = strip_refs(b[2] if b[0] != "deref" else b[1])
+    if b[0] in ("mem", "local"):
+        for (_, _, proj) in cx.body.partial.get(b[1], []):
+            if proj and isinstance(proj[0], dict) and proj[0].get("f") == idx:
+                return True
+    return False
+
+
 def _resolve(cx, e, depth=0):
     """follow parameters into the caller and single-definition locals: -> (context, expression)"""
     e = strip_refs(e)
@@ -203,7 +216,7 @@ def _root(cx, e):
         return _root(cx, e[1])   # LeanString.0
     if e[0] == "field":
         rc, rb = _resolve(cx, e[1])
-        if rb[0] == "agg" and e[2] < len(rb[3]):
+        if rb[0] == "agg" and e[2] < len(rb[3]) and not _field_mutated(cx, e[1], e[2]):
             return _root(rc, rb[3][e[2]])   # a capture of a closure / a field of a struct built by the caller
     return cx.desc(e)
 
@@ -517,3 +530,73 @@ def rule_moves(ctx, rule="T7-moves"):
             ctx.ob(rule, b.path, "transition-copies-whole-text", ok, how="old storage + 0 -> new storage + 0, len(self) bytes", detail="realloc's layout transition copies %s" % show(cp))
             pub = [x for x in ls if x[0].endswith("::set_len")]
             ctx.ob(rule, b.path, "transition-publishes-len", len(pub) == 1 and pub[0][2] == L("p1") and pub[0][1] != "p1", how="new buffer's length = len(self)", detail="realloc's layout transition publishes %s on %s" % ([str(x[2]) for x in pub], [x[1] for x in pub]))
+
+
+def rule_retain_loop(ctx, rule="T9-retain"):
+    """retain keeps exactly the chars the predicate accepted, compacted in order.
+    Structural form (when the loop has the read-char / ask / write-back shape): the write-back of
+    the char lies on the TRUE edge of the predicate call, the predicate is asked about the char
+    that is written, the write goes to storage + dst with the char's own width, and the two
+    cursors advance by that width - src on every iteration, dst exactly on the kept edge, after the
+    write.  If retain is written in another style the clause is not decided (stated in the how)."""
+    from guards import guards_at, CLOSURE_CALLS
+    F = ctx.F
+    b = F.bodies.get("repr::Repr::retain")
+    ctx.need(rule, "repr::Repr::retain", "anchor", b is not None, "Repr::retain not found")
+    if not b:
+        return
+    ms, ls = moves_of(b)
+    enc = [m for m in ms if m.kind == "encode_utf8" and m.cx.body is b]
+    preds = [(bb, t) for bb, t in b.calls() if callee_name(t) in CLOSURE_CALLS and not t.get("resolved")]
+    if len(enc) != 1 or len(preds) != 1:
+        ctx.ob(rule, b.path, "loop-shape", True, how="not the read / ask / write-back loop (%d char writes, %d predicate calls): clause not decided" % (len(enc), len(preds)))
+        return
+    m, (pbb, pt) = enc[0], preds[0]
+    cx = Cx(b)
+    # (1) kept edge
+    kept = any(g[0] == "pred" and g[3] is True and len(g) > 4 and g[4] == pbb for g in guards_at(b, m.bb))
+    ctx.ob(rule, b.path, "write-on-true-edge", kept, how="the char is written back only where predicate(ch) returned true", line=m.line,
+           detail="the write-back of a char is not on the true edge of the predicate call: retain keeps the chars the predicate rejected (or all of them)")
+    # (2) the char asked about is the char written, with its own width
+    chd = m.src[0][len("CHAR("):-1] if m.src[0].startswith("CHAR(") else None
+    tup = strip_refs(b.origin_operand(pt["args"][1])) if len(pt["args"]) == 2 else None
+    asked = cx.desc(tup[3][0]) if tup is not None and tup[0] == "agg" and len(tup[3]) == 1 else None
+    ctx.ob(rule, b.path, "asks-about-the-char-written", chd is not None and asked == chd, how="predicate(ch) and encode_utf8(ch, ..) take the same char", detail="the predicate is asked about %s but %s is written" % (asked, chd))
+    W = Lin.sym("core::char::methods::<impl char>::len_utf8(%s)" % chd)
+    ctx.ob(rule, b.path, "write-width", m.n == W, how="the write-back is len_utf8(ch) bytes wide", detail="the write-back is %s bytes wide (expected %s)" % (m.n, W))
+    dsyms = list(m.dst[1].t.items())
+    okd = m.dst[0] == "BUF(p1)" and m.dst[1].c == 0 and len(dsyms) == 1 and dsyms[0][1] == 1
+    ctx.ob(rule, b.path, "write-at-dst-cursor", okd, how="written at storage + dst", detail="the write-back goes to %s + (%s)" % (m.dst[0], m.dst[1]))
+    if not okd or chd is None:
+        return
+    D = dsyms[0][0]
+    ms_ = re.search(r"Range::Range\{([^,{}]+), ", chd)
+    S = ms_.group(1) if ms_ else None
+    if S is None:
+        # the read position spelled differently (from_raw_parts(data.add(src), len - src) ...): the one
+        # loop-carried cursor other than dst that the char expression mentions
+        cand = sorted(set(re.findall(r"mem:\w+\.\d+", chd)) - {D})
+        S = cand[0] if len(cand) == 1 else None
+    if S is None:
+        ctx.ob(rule, b.path, "reads-at-src-cursor", True, how="source cursor not recognised in the char expression: cursor clauses not decided")
+        return
+    ctx.ob(rule, b.path, "reads-at-src-cursor", S != D, how="the char is read from text[src..]", detail="the char is read at the destination cursor %s" % D)
+    # (3) cursor updates
+    ups = {D: [], S: []}
+    for bb, blk in enumerate(b.blocks):
+        for s_ in blk["stmts"]:
+            if s_["k"] == "assign" and s_["lhs"]["p"] and "deref" not in s_["lhs"]["p"]:
+                lhs = cx.desc(b._apply_proj(b.origin_local(s_["lhs"]["l"]) if False else ("mem", s_["lhs"]["l"]), s_["lhs"]["p"], ()))
+                if lhs in ups:
+                    ups[lhs].append((bb, lin(cx, b.origin_rvalue(s_["rv"]))))
+    for name, sym in (("dst", D), ("src", S)):
+        u = ups[sym]
+        ok = len(u) == 1 and u[0][1] == Lin.sym(sym) + W
+        ctx.ob(rule, b.path, name + "-advances-by-char-width", ok, how="%s += len_utf8(ch), once per iteration" % name, detail="the %s cursor is updated by %s (expected one update: %s + %s)" % (name, [str(x[1]) for x in u], sym, W))
+    if len(ups[D]) == 1 and len(ups[S]) == 1:
+        dbb, sbb = ups[D][0][0], ups[S][0][0]
+        true_t = [tb for v, tb in b.term(b.term(pbb)["target"])["arms"]] if b.term(b.term(pbb)["target"])["k"] == "switch" else []
+        kept_region = any(g[0] == "pred" and g[3] is True and len(g) > 4 and g[4] == pbb for g in guards_at(b, dbb))
+        every_iter = not any(g[0] == "pred" and len(g) > 4 and g[4] == pbb for g in guards_at(b, sbb)) and b.dominates(pbb, sbb)
+        ctx.ob(rule, b.path, "dst-advances-only-when-kept", kept_region and b.dominates(m.bb, dbb), how="dst advances on the kept edge, after the write-back", detail="the destination cursor advances outside the kept edge or before the char is written")
+        ctx.ob(rule, b.path, "src-advances-every-iteration", every_iter, how="src advances whatever the predicate said", detail="the source cursor does not advance on every iteration (only on one arm of the predicate, or before the predicate was asked)")
